@@ -304,7 +304,7 @@ let cbor_fmt : fmt = {
   decode_stream = (fun doc fuel -> generic_stream cbor_decode (fun b -> b) doc fuel);
   parse = (fun mode vfail chunks ->
       let r =
-        if mode = "P" || mode = "S" then run_parse (fail_opt vfail) (List.concat chunks)
+        if mode = "P" || mode = "S" || mode = "G" || mode = "T" then run_parse (fail_opt vfail) (List.concat chunks)
         else if mode = "R" || mode = "E" then run_chunks (fail_opt vfail) (List.filter (fun c -> c <> []) chunks)
         else run_chunks (fail_opt vfail) chunks in
       res_obs (match r with Ok x -> Ok (x, ()) | Panic w -> Panic w | OutOfFuel -> OutOfFuel | Err e -> Err e));
@@ -366,7 +366,7 @@ let ubj_fmt : fmt = {
   decode_stream = (fun doc fuel -> generic_stream ubj_decode skip_noops doc fuel);
   parse = (fun mode vfail chunks ->
       let r =
-        if mode = "P" || mode = "S" then urun_parse (fail_opt vfail) (List.concat chunks)
+        if mode = "P" || mode = "S" || mode = "G" || mode = "T" then urun_parse (fail_opt vfail) (List.concat chunks)
         else if mode = "R" || mode = "E" then urun_chunks (fail_opt vfail) (List.filter (fun c -> c <> []) chunks)
         else urun_chunks (fail_opt vfail) chunks in
       ubj_obs3 r);
@@ -498,7 +498,7 @@ let json_fmt : fmt = {
   decode_stream = (fun _ _ -> `Stop);
   parse = (fun mode vfail chunks ->
       let r =
-        if mode = "P" || mode = "S" then jrun_parse parse_float_oracle (fail_opt vfail) (List.concat chunks)
+        if mode = "P" || mode = "S" || mode = "G" || mode = "T" then jrun_parse parse_float_oracle (fail_opt vfail) (List.concat chunks)
         else if mode = "R" || mode = "E" then jrun_chunks parse_float_oracle (fail_opt vfail) (List.filter (fun c -> c <> []) chunks)
         else jrun_chunks parse_float_oracle (fail_opt vfail) chunks in
       json_obs3 r);
@@ -736,7 +736,7 @@ let parse_case (f : fmt) (input : string) (obs0 : string) : verdict =
             oracle := (if f.extref then (match find_flag "REF" flagl with Some r -> ext_ref_oracle f r evs verdict | None -> [])
                        else ref_oracle f (List.concat chunks) evs verdict);
             (match depth with
-             | Some d when verdict = "ok" && mode <> "R" && mode <> "E" && not (starts_with d f.idle) ->
+             | Some d when verdict = "ok" && mode <> "R" && mode <> "E" && mode <> "G" && mode <> "T" && not (starts_with d f.idle) ->
                  oracle := ("C17", "parser stacks not idle after complete documents: " ^ d) :: !oracle
              | _ -> ())
           end else begin
@@ -750,7 +750,11 @@ let parse_case (f : fmt) (input : string) (obs0 : string) : verdict =
       (if flags <> "" then
          match words flags with p :: m -> oracle := (p, "chunked run differs from whole-buffer run: " ^ String.concat " " m) :: !oracle | [] -> ());
       (match List.filter (fun x -> starts_with x "ALIAS ") flagl with
-       | x :: _ -> oracle := ("C15", "a string or key delivered by value changed after delivery (it aliases a buffer that was reused): " ^ x) :: !oracle
+       | x :: _ ->
+           oracle := ("C15", "a string or key delivered by value changed after delivery (it aliases a buffer that was reused): " ^ x) :: !oracle;
+           (* a visitor that keeps what it is handed sees another event sequence than from a whole-buffer parse *)
+           if List.length chunks > 1 then
+             oracle := ("C02", "a string or key delivered by value during a chunked parse changed afterwards: " ^ x) :: !oracle
        | [] -> ());
       let model =
         if f.fname = "json" && vfail < 0 then
@@ -1537,10 +1541,12 @@ let userfold_case (_input : string) (obs0 : string) : verdict =
             if verdict <> "ok" then bad ("folding a value with a custom folder / Folder / IsZeroer failed: " ^ verdict)
             else (match stream_tree got, stream_tree want with
                 | Some tg, Some tw ->
-                    if not (wf_tree tg) then bad "Fold emitted an ill-formed event stream for a value with a custom folder"
+                    if not (wf_tree tg) then (bad "Fold emitted an ill-formed event stream for a value with a custom folder";
+                                              oracle := ("C09", "Fold emitted an ill-formed event stream for a value with a custom folder") :: !oracle)
                     else if not (cvalue_eqb (cv (value_of tg)) (cv (value_of tw))) then
                       bad ("a value with a registered or implemented custom folder / IsZeroer was not folded as documented: got " ^ String.concat " " toks)
-                | None, _ -> bad "Fold emitted an unbalanced event stream for a value with a custom folder"
+                | None, _ -> bad "Fold emitted an unbalanced event stream for a value with a custom folder";
+                    oracle := ("C09", "Fold emitted an unbalanced event stream for a value with a custom folder") :: !oracle
                 | _, None -> failwith "userfold: bad WANT")
         | None -> failwith "userfold: no WANT")
    | _ -> bad ("crashed or hung: " ^ obs));
@@ -1570,6 +1576,11 @@ let deep_case (_f : fmt) (_input : string) (obs0 : string) : verdict =
 let encreuse_case (_f : fmt) (_input : string) (obs0 : string) : verdict =
   let obs, _ = split_flags_all obs0 in
   { model = obs; oracle = (if obs = "R same" || obs = "R skip" then [] else [ ("C17", "an encoder used before writes something else for the next document than a new one: " ^ obs) ]) }
+
+(* ---- C17: one instance used for more than 10000 documents ---- *)
+let longhist_case (_f : fmt) (_input : string) (obs0 : string) : verdict =
+  let obs, _ = split_flags_all obs0 in
+  { model = obs; oracle = (if obs = "L ok" || obs = "L skip" then [] else [ ("C17", "an instance used for thousands of documents does not behave like a new one: " ^ obs) ]) }
 
 (* ---- C10 / C01: typed arrays of 2^16 elements and more (no model: the extracted encoders are quadratic there) ---- *)
 let big_case (_f : fmt) (_input : string) (obs0 : string) : verdict =
@@ -1640,7 +1651,7 @@ let () = all_fmts := fmts
 let fmt_handlers =
   ("xc", xc_case) :: ("adapt", adapt_case) :: ("expobj", expobj_case) ::
   List.concat_map (fun f -> [ (f.fname ^ "enc", enc_case f); (f.fname ^ "parse", parse_case f); (f.fname ^ "dec", dec_case f);
-                              ("rt" ^ f.fname, rt_case f); ("x10" ^ f.fname, x10_case f); ("hist" ^ f.fname, hist_case f); ("wafter" ^ f.fname, wafter_case f); ("deep" ^ f.fname, deep_case f); ("big" ^ f.fname, big_case f); ("encreuse" ^ f.fname, encreuse_case f); ("bigstr" ^ f.fname, bigstr_case f); ("cuts" ^ f.fname, cuts_case f); ("scut" ^ f.fname, scut_case f) ]) fmts
+                              ("rt" ^ f.fname, rt_case f); ("x10" ^ f.fname, x10_case f); ("hist" ^ f.fname, hist_case f); ("wafter" ^ f.fname, wafter_case f); ("deep" ^ f.fname, deep_case f); ("big" ^ f.fname, big_case f); ("longhist" ^ f.fname, longhist_case f); ("encreuse" ^ f.fname, encreuse_case f); ("bigstr" ^ f.fname, bigstr_case f); ("cuts" ^ f.fname, cuts_case f); ("scut" ^ f.fname, scut_case f) ]) fmts
 
 (* a crash or hang is compared as such: what was delivered before is not part of the observation *)
 let canon_obs (o : string) : string =
